@@ -1,14 +1,36 @@
 # Table behind MANIFEST.json. Edit here, then run tools/mkmanifest.py.
-HOOK_COMMITS = ["02ed0ef"]
+import subprocess
+HOOK_COMMITS = subprocess.run(["git","-C","/repo","log","--format=%h","--grep=^verif:"],capture_output=True,text=True).stdout.split()
 
 PENDING = "not claimed yet: the machinery for this property is not built/validated at this commit (work in progress, see DESIGN.md section 12); no other technique is substituted"
 
+TECH = "contract-based deductive verification: VCs by symbolic execution of go/ssa against //@ contracts, SMT (z3/z3-new/cvc5 raced), frame contracts by modular effect summaries, model replay via go test -overlay"
+
 CLAIMED = {
+ "C05": ("proof",
+   "Date.Time, Date.Years, IsBefore/IsAfter, Sub, DateRange.Duration/Years/IsBefore/IsAfter and NewDuration are verified against calendar spec functions (dayno, dim, diy, yday) for all valid full, month-year and year-only dates of years 1..9999, and the property's statements (start<=end, true period length incl. leap years, strictly increasing Years from each day to the next across month and year ends, partial dates inside their period, before/after = calendar order) are lemmas over those spec functions discharged by SMT. The year-1 end-bound defect is a known finding carved out by predicate.",
+   "Assumed and validated in the thorough tier against the real package: contracts of time.Parse/Date/AddDate/Add/Year/Month/Day/YearDay/IsZero and fmt.Sprintf for the three date formats (/verif/contracts/time.gvc); time.Time = integer ns; float64 = Real (strictness needs a gap of 1/367 against ulp(9999) ~ 1.8e-12: argued, cross-checked by execution in the thorough tier); int mathematical. DateNodes.Minimum/Maximum are not under contract yet.",
+   TECH, "DESIGN.md section 8 C05"),
  "C06": ("proof",
    "Every obligation generated from the real SSA of compareDatesForLetter, DateRange.Compare, Date.Time and the three simplified-verdict predicates is discharged by SMT for all inputs: the result is the documented relation of the two day intervals for every 4-tuple of end points (all orderings and coincidences, every granularity, all years 1..9999), never Invalid, Equal on identical ranges, converse under swapping (lemma over the matrix read from the current source), exactly one simplified verdict. Known single-day defects are carved out by predicate and kept visible as KNOWN-FINDING.",
    "Assumed (validated in the thorough tier against the real package): the contracts of time.Parse/AddDate/Truncate/Equal/Before/After/IsZero and fmt.Sprintf for the three date formats in /verif/contracts/time.gvc; time.Time modelled as integer nanoseconds; int mathematical. Trusted: gv's VC generator, go/ssa, the SMT solvers.",
-   "contract-based deductive verification: WP/symbolic execution over go/ssa, SMT (z3/cvc5), model replay via go test -overlay",
-   "DESIGN.md section 8 C06"),
+   TECH, "DESIGN.md section 8 C06"),
+ "C07": ("other",
+   "Decided: the deep-copy half of the property as a frame contract on DeepCopy - the copy and every node reachable from it through child edges is created by the call (shares no node with the source), and the call writes nothing but caches and the destination document. Not decided by this check: that deep equality is an order-insensitive equivalence (greedy matching over whole trees, see DESIGN.md section 9).",
+   "Frame engine: modular may-write/may-link summaries over go/ssa with allocation-site objects; sound over-approximation, refutations carry no input (no-failing-input-found). Assumed: external packages' frames (listed in evidence), CHA call graph for interface calls, append into spare capacity not counted as a write.",
+   TECH, "DESIGN.md section 8 C07"),
+ "C08": ("other",
+   "Decided: 'computing, printing, sorting or querying a diff never modifies the compared trees' as frame contracts on CompareNodes, traverse, String, IsDeepEqual, Sort, Tag (allowed writes on pre-existing objects: caches and the NodeDiff's own fields). NodeDiff.Sort violates it (known finding, canary replayed). Not decided yet: provenance/coverage of the entries (functional contracts on traverse).",
+   "Frame engine as for C07. The Sort defect is listed in known_findings.json by obligation name; any other write to the inputs is a new obligation and is reported.",
+   TECH, "DESIGN.md section 8 C08"),
+ "C09": ("other",
+   "Decided: 'the result is built from fresh nodes: inputs are never modified and later changes to the result never show through' as frame + result-fresh contracts on MergeNodes, MergeNodeSlices, EqualityMergeFunction and DeepCopy (holds after the fix: commit). Not decided yet: length bounds / merged-at-most-once invariants of MergeNodeSlices and per-child coverage of MergeNodes.",
+   "Frame engine as for C07; merge function parameters are resolved through the CHA call graph (all functions of type MergeFunction).",
+   TECH, "DESIGN.md section 8 C09"),
+ "C12": ("other",
+   "Decided for all inputs: date similarity equals the documented parabola of the distance in years (value contract on DateRange.Similarity over the Years contract of C05), lies in [0,1], is symmetric, 1 at distance 0, 0 beyond maxYears and non-increasing in the distance (lemmas, nonlinear real arithmetic); missing dates score exactly 0.5; the weighted surrounding similarity is in [0,1] for components in [0,1] and non-negative weights summing to 1, and 1 on identity; the default options have non-negative weights summing to 1 (within 1e-12) and a Jaro prefix size <= 10. Not decided yet: Jaro/JaroWinkler bounds, individual and list similarity.",
+   "float64 = Real (no rounding, no NaN); DateNode.DateRange is opaque (trusted contract: writes only its two cache fields).",
+   TECH, "DESIGN.md section 8 C12"),
 }
 
 NOT_APPLICABLE = {pid: PENDING for pid in ["C%02d" % i for i in range(1, 21)] if pid not in CLAIMED}
